@@ -5,9 +5,9 @@ Require Import OV.Gen.VersionTables OV.Version.Model OV.Version.Model2 OV.Versio
 Local Open Scope Z_scope.
 
 (* _version_converter.convert_version(ir_model, t) on the variant (own, refuse) the harness probed *)
-Definition run_case2 (own refuse minchk : bool) (fx : flags) (M : model) (t : Z) (o : observed) : bool :=
+Definition run_case2 (own refuse : bool) (minchk : minvar) (fx : flags) (M : model) (t : Z) (o : observed) : bool :=
   agrees_m (convert_native2 own refuse minchk (std_adapt fx) supported_min supported_max big_fuel M t) o.
-Fixpoint disagreeing2 (i : nat) (cs : list (bool * bool * bool * flags * model * Z * observed)) : list nat :=
+Fixpoint disagreeing2 (i : nat) (cs : list (bool * bool * minvar * flags * model * Z * observed)) : list nat :=
   match cs with
   | [] => []
   | (own, refuse, minchk, fx, M, t, o) :: r => (if run_case2 own refuse minchk fx M t o then [] else [i]) ++ disagreeing2 (S i) r
